@@ -1850,6 +1850,14 @@ class FilterCompModel(Model):
                 z3.And(0 <= j, j < n), arr[j] == src.arr[IDX(A, j)]),
                 patterns=[arr[j]]))
             st.assume(z3.And(n >= 0, n <= src.n))
+            # ... and every element satisfying the condition is in the result
+            # (at position CNT(A, k)): the "onto" theorem of lemmas/Count.lean
+            # stated on the result list
+            st.assume(z3.ForAll([k], z3.Implies(
+                z3.And(0 <= k, k < src.n, body),
+                z3.And(0 <= CNT(A, k), CNT(A, k) < n,
+                       arr[CNT(A, k)] == src.arr[k])),
+                patterns=[src.arr[k]]))
             out = VList(arr, n, src.eshape, None)
             out.filter_of = (src, A)
             return out
